@@ -388,7 +388,8 @@ def main():
     if RESOURCES:
         w("    World::with_resources(resources!(" + ", ".join(f"r{i}" for i in range(len(RESOURCES))) + "))")
     else:
-        w("    World::new()")
+        w("    // Both ways of obtaining a world without resources.")
+        w("    if vals[0] & 1 == 0 { World::new() } else { <Wd as Default>::default() }")
     w("}")
     w("")
     w("pub fn read_resources(w: &Wd) -> Result<[(u64, u64); 4], String> {")
